@@ -132,10 +132,14 @@ impl Stdin for UnixStdin {
             }
         };
 
-        let line = &pending.bytes[pending.start..end];
-        let mut buf = ArenaString::with_capacity_in(line.len(), arena);
-        unsafe {
-            buf.as_mut_vec().extend_from_slice(line);
+        // The line becomes a string: it has to be UTF-8 (checked per LINE, whatever the
+        // chunks were). The bad line is consumed either way.
+        let valid = std::str::from_utf8(&pending.bytes[pending.start..end]).map(|_| ());
+        let mut buf = ArenaString::with_capacity_in(end - pending.start, arena);
+        if valid.is_ok() {
+            unsafe {
+                buf.as_mut_vec().extend_from_slice(&pending.bytes[pending.start..end]);
+            }
         }
 
         pending.start = next;
@@ -144,6 +148,7 @@ impl Stdin for UnixStdin {
             pending.start = 0;
         }
 
+        valid.map_err(|err| io::Error::new(io::ErrorKind::InvalidData, err))?;
         Ok(buf)
     }
 }
